@@ -57,6 +57,15 @@ Theorem c18_stats_partition_order_invariant : forall dim dim' X xs xs' b,
 Proof. exact stats_partition_order_invariant. Qed.
 Print Assumptions c18_stats_partition_order_invariant.
 
+(* histories of one module (accumulate / store(delete_stats, bessel) in any sequence): every
+   store() returns what a fresh module would return after accumulating exactly the tensors seen
+   since the last store that deleted the statistics - so the three theorems above apply to
+   every store of every history; the buffers left at the end are those of that same list *)
+Theorem c18_histories : forall dim ops,
+  run_ops dim None ops [] = history_ref dim [] ops [].
+Proof. exact run_ops_history0. Qed.
+Print Assumptions c18_histories.
+
 (* "normalising with them gives each coefficient zero mean and unit variance over the pooled
    data": accumulate, store, take std with std^2 = var (positive and not below eps), normalise
    every accumulated tensor; the pooled result has mean 0 and (biased resp. Bessel) variance 1 *)
